@@ -139,6 +139,7 @@ pub fn run_worker<E: Engine>(
     }
     let stats = RefCell::new(Stats::default());
     let failed: RefCell<Option<String>> = RefCell::new(None);
+    let first_failing: RefCell<Option<String>> = RefCell::new(None);
     let counting = Cell::new(true);
     let cur_path = out.with_extension("cur");
     let cur_file = RefCell::new(std::fs::File::create(&cur_path).expect("cur file"));
@@ -190,6 +191,7 @@ pub fn run_worker<E: Engine>(
             None => {
                 if let Some(v) = fresh.first() {
                     *fl = Some(v.0.clone());
+                    *first_failing.borrow_mut() = Some(eng.encode(case));
                     counting.set(false);
                     return Err(TestCaseError::fail(v.0.clone()));
                 }
@@ -260,6 +262,7 @@ pub fn run_worker<E: Engine>(
                     "predicate": failed.borrow().clone().unwrap_or_default(),
                     "case": eng.encode(&minimal),
                     "from": "generated+shrunk",
+                    "unshrunk_case": first_failing.borrow().clone(),
                     "tier": tier,
                     "seed": seed,
                     "worker": worker,
@@ -416,10 +419,31 @@ pub fn run_parent<E: Engine>(eng: &E, cfg: ParentCfg) -> i32 {
             .env("RUST_BACKTRACE", "0")
             .stdout(std::process::Stdio::null())
             .status();
-        let confirmed = match st {
+        let mut confirmed = match st {
             Ok(s) => s.code() != Some(0),
             Err(_) => false,
         };
+        if !confirmed {
+            // shrinking may have wandered off (e.g. when the code under test corrupts memory and
+            // later cases misbehave): fall back to the case that failed first, unshrunk
+            if let Some(un) = f["unshrunk_case"].as_str() {
+                let mut rv2 = rv.clone();
+                if let Some(m) = rv2.as_object_mut() {
+                    m.insert("case".into(), json!(un));
+                    m.insert("from".into(), json!("generated (unshrunk: the shrunk case did not reproduce)"));
+                }
+                std::fs::write(&rpath, serde_json::to_vec_pretty(&rv2).unwrap()).expect("write replay");
+                let st2 = std::process::Command::new(&exe)
+                    .args(&cfg.exe_args)
+                    .arg("replay")
+                    .arg(cfg.prop)
+                    .arg(&rpath)
+                    .env("RUST_BACKTRACE", "0")
+                    .stdout(std::process::Stdio::null())
+                    .status();
+                confirmed = matches!(st2, Ok(s) if s.code() != Some(0));
+            }
+        }
         if confirmed {
             lines.push(format!("VIOLATION property={} replay={}", cfg.prop, rpath.display()));
             if let Some(vs) = f["violations"].as_array() {
